@@ -306,8 +306,11 @@ impl<R: Round, const B: Word> FBig<R, B> {
         } else if up > 1 {
             self.context.precision / up
         } else {
-            (Repr::<B>::BASE.pow(self.context.precision).log2_bounds().0 / NewB.log2_bounds().1)
-                as usize
+            // the documented maximum: the largest k with NewB^k <= B^precision, as an exact integer
+            // logarithm (an estimate from log2 bounds can be one less, and it depends on the word size)
+            Repr::<B>::BASE
+                .pow(self.context.precision)
+                .ilog(&UBig::from_word(NewB))
         };
         self.with_base_and_precision(precision)
     }
